@@ -679,7 +679,7 @@ func (ld *Loaded) verifyContract(c *Contract, useContracts bool) (vcs []*VC, err
 			r := x.evalPred(cl.Fn, inst.args, pre, st, nil, nil).(*Term)
 			x.assume(r)
 		}
-		x.pinBoolHyps(st)
+		x.pinBoolHyps(st, inst.args)
 		pre = st.h.clone()
 		x.obligs = nil
 		mods := x.resolveMods(c.Modifies, inst.args, st, nil)
